@@ -6,7 +6,7 @@ using namespace vk;
 template<class V> void sweep(const char*, std::false_type) {}
 template<class V> void sweep(const char* type, std::true_type) {
     typedef typename V::scalar T;
-    if (!opt().thorough) return;
+    if (!opt().sweep) return;
     SameFp<T> eq;
     // every one of the 2^32 float patterns; ceil/floor/trunc/round under round-to-nearest and one rotating other mode,
     // nearbyint/rint under all four modes
